@@ -152,10 +152,10 @@ func buildStoreConfig(c *sim.RunCtx, s *rt.Sched, cfg *storeCfg, m *media, proc 
 		e.restore()
 		panic(sim.HarnessError{Msg: fmt.Sprintf("W-config: NewBlobAccessFromConfiguration failed: %v (cfg %s)", err, cfg)})
 	}
+	// (what the store announces is not judged here: instance-name visibility
+	// is judged by behaviour)
 	if cfg.AC && info.DigestKeyFormat != digest.KeyWithInstance {
-		c.Fail("wrong-key-format-announced", "the configured Action Cache store announces key format %v: instance names would be ignored by whatever is keyed by it", info.DigestKeyFormat)
-	} else if !cfg.AC && !cfg.Hier && !cfg.Demux && info.DigestKeyFormat != digest.KeyWithoutInstance {
-		panic(sim.HarnessError{Msg: "W-config: unexpected key format"})
+		c.Count("note_ac_store_announces_key_without_instance", 1)
 	}
 	e.ba = info.BlobAccess
 	if cfg.Disk {
